@@ -86,10 +86,13 @@ Proof.
 Qed.
 Print Assumptions C13_decode_rejects_malformed.
 
-(* FINDING (pkg/pdfcpu/primitives/dateField.go: tu = StringLiteral(EncodeUTF16String(df.Tip)), no
-   Escape): the full statement "forall valid s, StringLiteralToString (EncodeUTF16String s) = Ok s"
-   is false; it holds exactly when the UTF-16BE bytes contain no backslash (in a written file the
-   PDF parser additionally needs balanced parentheses, which is outside this model). *)
+(* Why Escape is necessary.  pkg/pdfcpu/primitives/dateField.go used to store its tooltip as
+   StringLiteral(EncodeUTF16String(df.Tip)), without Escape (found by this check, fixed in /repo by
+   "fix: escape the tooltip of date fields ..."; the harness keeps an end-to-end oracle for it, class
+   c13-datefield-tooltip-unescaped).  The statement "forall valid s, StringLiteralToString
+   (EncodeUTF16String s) = Ok s" is false; it holds exactly when the UTF-16BE bytes contain no
+   backslash (in a written file the PDF parser additionally needs balanced parentheses, which is
+   outside this model). *)
 Theorem C13_unescaped_literal_refuted :
   exists s, utf8_valid s = true /\ StringLiteralToString (EncodeUTF16String s) <> Ok s.
 Proof. exact unescaped_literal_refuted. Qed.
